@@ -302,7 +302,8 @@ class LinearLeastSquares(App):
         if self.lamda != 0:
             AHA += self.lamda * linop.Identity(self.x.shape)
             if self.z is not None:
-                util.axpy(AHy, self.lamda, self.z)
+                # A.H may return (a view of) y itself: do not accumulate in place.
+                AHy = AHy + self.lamda * self.z
 
         self.alg = ConjugateGradient(
             AHA, AHy, self.x, P=self.P, max_iter=self.max_iter, tol=self.tol
